@@ -1060,6 +1060,33 @@ def near_duplicates(rng, p):
     return out
 
 
+# ---- version-specific vocabulary: words that are keywords of the 2.1 pattern grammar only are ordinary
+#      property names in 2.0
+V21_ONLY_KEYWORDS = ["EXISTS"]
+
+
+def as_v20_only(rng, p):
+    """p with one key step of one object path renamed to a 2.1-only keyword: valid in the 2.0 grammar only; or None"""
+    cands = []
+    for path, e in positions(p):
+        if e[0] == "atom" and ("k", "hashes") not in e[2]:
+            for n, s in enumerate(e[2]):
+                if s[0] == "k" and s[1] != "*":
+                    cands.append((path, e, n))
+    if not cands:
+        return None
+    path, e, n = rng.choice(cands)
+    steps = list(e[2])
+    steps[n] = ("k", rng.choice(V21_ONLY_KEYWORDS))
+    typ = e[1]
+    if typ in ("ipv4-addr", "ipv6-addr", "windows-registry-key"):
+        typ = "x-foo"
+    new = ("atom", typ, steps, e[3], e[4], e[5])
+    out = replace_at(p, path, new)
+    # every atom of the same observation must keep a common object type
+    return out if all(root_types(x[1]) is not None for _, x in positions(out) if x[0] == "obs") else None
+
+
 def flat_node(op, kids):
     out = []
     for k in kids:
